@@ -278,6 +278,11 @@ pub enum Op {
     /// Try to load variable, returns undefined if not found: r[dst] = env[name] ?? undefined
     TryGetVar { dst: Register, name: ConstantIndex },
 
+    /// Like TryGetVar, but only looks at the innermost environment (and, in the body of a
+    /// namespace, at the namespace object): finds what an earlier declaration of the same scope
+    /// created, never a same-named binding of an enclosing scope
+    TryGetLocalVar { dst: Register, name: ConstantIndex },
+
     /// Store variable: env[name] = r[src]
     SetVar { name: ConstantIndex, src: Register },
 
